@@ -39,8 +39,9 @@ TWO_WEEKS = 14 * 24 * 3600
 
 def runs(tier, seed):
     if tier == "thorough":
-        return [Run("assumevalid", cases=300, params={"nmin": 2200, "nmax": 4400}, timeout=3000, name="assumevalid")]
-    return [Run("assumevalid", cases=12, params={"nmin": 2200, "nmax": 4400}, timeout=1500, name="assumevalid")]
+        # 20 cases per position class; ~20-30 s CPU per case under ASan -> ~7 min on an idle 16-core box
+        return [Run("assumevalid", cases=240, params={"nmin": 2200, "nmax": 4400}, timeout=7200, name="assumevalid")]
+    return [Run("assumevalid", cases=12, params={"nmin": 2200, "nmax": 4400}, timeout=2400, name="assumevalid")]
 
 
 def allowed_by_statement(rec):
